@@ -5,6 +5,9 @@ HERE = os.path.dirname(os.path.abspath(__file__))
 # id -> (built?, level, technique, level text, level note, design ref)
 RACE = "Go race detector (-race build, GORACE log parsed, reports de-duplicated)"
 T = {
+ "C11": (True, "exploration", "capturing-RoundTripper monitor: every payload kind through Runtime.Submit (-race build); sent bytes parsed with mime/multipart / url.ParseQuery / the producers; GetBody snapshots taken inside the auth writer compared with what was sent",
+         "Seeded exploration plus a complete sweep of single-file lengths 0..520 x six content kinds x read chunkings: the body is the producer's encoding / the reader's bytes / the URL-encoded fields / a multipart document with every field value and file exactly once (field name, base file name, content, declared-or-sniffed part type); the Content-Type describes the body; GetBody inside the auth writer (0/1/3 calls) returns the bytes later sent. Held on the executions produced; one labelled-multipart behaviour pinned by the repository's own test is a known finding.",
+         "trusts mime/multipart, net/url, http.DetectContentType (first <=512 content bytes) and the registered producers as differential partners; part order is not judged", "DESIGN.md §4 C11"),
  "C06": (True, "exploration", "reference-model monitor: generated consumes-list shapes x Content-Type spellings x body signalling x methods through both binding entry points (untyped RoutesHandler pipeline and Context.BindValidRequest), judged by an independent RFC 7231 media-type classifier and an admission function written from the statement; tagged consumers identify who decoded",
          "Seeded exploration (30k requests x 2 entry points per quick run, 1M x 2 per thorough run incl. ~20k over loopback TCP with real Content-Length/chunked framing): admitted <=> exactly the registered consumer ran once and the handler ran; otherwise 415 (400 unparsable) and nothing ran; body-less requests are not gated; the two entry points agree. No exhaustiveness over the header grammar.",
          "grey-zone headers (valid type/subtype with irregular parameters, lone token, empty value) are judged for safety and entry-point agreement only; status when no consumer is registered API-wide for an admitted type is not judged; upper-case consumes entries are outside the quantifier", "DESIGN.md §4 C06"),
